@@ -8,16 +8,17 @@
      is a success; not applied (invalid, lost its host/listener, orphaned, ignored) -> the most recent report
      is a rejection, warning or problem; and the validation error of the processed object is reported in that
      very step.
-   Proved below: [C05_truthful_partial] -- exactly that, for Ingresses, masters, minions, VirtualServers,
-   VirtualServerRoutes and TransportServers, valid or not, for EVERY history (no bound), with one verdict left
-   open: 3 for a minion (attached, serving none of its paths, last told "success" without the warning); and
-   [C05_validation_error_reported] for every event in every state.  Hypotheses ([hyps]): what the API server
+   Proved below: [C05_truthful] -- exactly that, for Ingresses, masters, minions, VirtualServers,
+   VirtualServerRoutes and TransportServers, valid or not, for EVERY history (no bound); and
+   [C05_validation_error_reported] for every event in every state.  ([C05_truthful_partial] is the same without
+   the hypothesis that a UID belongs to one name, and leaves verdict 3 -- a minion attached, serving none of its
+   paths, last told "success" without the warning -- open.)  Hypotheses ([hyps]): what the API server
    and the validators guarantee (K3; a master has one host, a minion a path, a VirtualServer a host, a route a
    UID; a passthrough TransportServer is only valid when passthrough is enabled; [ev_role]) and
-   cert_manager = false.  The open verdict and the cert-manager corner are decided on every run by
+   cert_manager = false.  The cert-manager corner and the tie of the model to the code are decided on every run by
    evaluating Arb.Cases.c05_run on the implementation's own change and problem lists. *)
 From Coq Require Import List ZArith String Bool.
-From NIC Require Import Base.SMap Arb.Types Arb.Model Arb.Spec Arb.InvProofs Arb.ClassProofs Arb.Cases Arb.ChangeProofs Arb.ReportProofs Arb.ShadowProofs Arb.ShadowAttrs Arb.Truth01 Arb.Truth07 Arb.Truth17 Arb.Truth18 Arb.Truth22 Arb.Truth24.
+From NIC Require Import Base.SMap Arb.Types Arb.Model Arb.Spec Arb.InvProofs Arb.ClassProofs Arb.Cases Arb.ChangeProofs Arb.ReportProofs Arb.ShadowProofs Arb.ShadowAttrs Arb.Truth01 Arb.Truth07 Arb.Truth17 Arb.Truth18 Arb.Truth22 Arb.Truth24 Arb.Truth26 Arb.Truth27.
 Import ListNotations.
 Open Scope Z_scope.
 
@@ -34,6 +35,17 @@ Theorem C05_truthful_partial :
   (minion_event e0 /\ truthful c (objs_after es) (view_ob (run c es)) (last_reports c es) k e0 = 3).
 Proof. exact accumulated_reports_truthful. Qed.
 Print Assumptions C05_truthful_partial.
+
+(* THE FULL STATEMENT: with the API-server guarantee that a UID belongs to one name ([uid_hist]) the judge returns 0
+   for every known object after every history.  (The extra hypothesis is what makes "the least claimant of a path"
+   well defined among the minions of a host; the proof goes through the general path-arbitration theorem of C04
+   and [unserving_minion_warned]: an attached minion that serves none of its paths carries a child warning.) *)
+Theorem C05_truthful :
+  forall c es, hyps c es -> uid_hist es ->
+  forall k e0, lookup k (cluster es) = Some e0 ->
+  truthful c (objs_after es) (view_ob (run c es)) (last_reports c es) k e0 = 0.
+Proof. exact accumulated_reports_truthful_full. Qed.
+Print Assumptions C05_truthful.
 
 (* the validation error of the object being processed is reported in that very step: in the change that removes
    it or as a problem about it -- for every event in every state *)
@@ -103,9 +115,9 @@ Proof. vm_compute. auto. Qed.
    cluster knows two objects at the end. *)
 Example C05_truthful_nonvacuous :
   let es := [EVS vA true true; EVS (vB "u2") true true; EDelVS "ns/b"; EVS (vB "u3") true true] in
-  hyps (mkCfg true false) es /\ List.length (cluster es) = 2%nat.
+  hyps (mkCfg true false) es /\ uid_hist es /\ List.length (cluster es) = 2%nat.
 Proof.
-  split; [|vm_compute; reflexivity]. constructor; [reflexivity|repeat constructor| |repeat constructor; discriminate].
+  split; [|split; [intros a b Ha; cbn [In] in Ha; destruct Ha as [Ha|[Ha|[Ha|[Ha|[]]]]]; discriminate Ha|vm_compute; reflexivity]]. constructor; [reflexivity|repeat constructor| |repeat constructor; discriminate].
   repeat split; intros a b Ha Hb Hm; cbn [In] in Ha, Hb;
     destruct Ha as [Ha|[Ha|[Ha|[Ha|[]]]]]; try discriminate Ha; injection Ha as Ea; subst a;
     destruct Hb as [Hb|[Hb|[Hb|[Hb|[]]]]]; try discriminate Hb; injection Hb as Eb; subst b;
